@@ -20,6 +20,7 @@ pub enum InFlight<'s> {
 }
 
 pub struct Env<'e, 's> {
+    pub specs: &'s [SearcherSpec],
     pub suts: &'s [Option<TSut>],
     pub fixed: &'s [Vec<u8>],
     pub slots: &'e Mutex<Vec<Option<InFlight<'s>>>>,
@@ -498,6 +499,20 @@ fn exec_inner<'a, 's: 'a>(
             exec_inner(env, Some(&c), &mut *bufs, inner, me, out);
             drop(c);
         }
+        Op::OrphanClone(inner) => {
+            env.counters.lock().unwrap().clone_ops += 1;
+            let s = op_searcher(inner);
+            match env.specs.get(s).map(crate::tsut::build_tsut) {
+                Some(Ok(orig)) => {
+                    let c = orig.clone_searcher();
+                    drop(orig);
+                    exec_inner(env, Some(&c), &mut *bufs, inner, me, out);
+                    drop(c);
+                }
+                Some(Err(e)) => out.push(R::Err(e)),
+                None => out.push(R::Err(format!("searcher {} unavailable", s))),
+            }
+        }
         Op::StartIter { slot, src, first } => {
             let sink = Arc::new(Mutex::new(Vec::new()));
             let cap = src_cap(env, src);
@@ -578,7 +593,7 @@ pub fn op_searcher(op: &Op) -> usize {
         Op::Iter { q, .. } | Op::ReplaceAll { q, .. } | Op::ReplaceAllWith { q, .. } => q.s,
         Op::Stream(p) => p.s,
         Op::Interleave2 { a, .. } => src_searcher(a),
-        Op::WithClone(inner) => op_searcher(inner),
+        Op::WithClone(inner) | Op::OrphanClone(inner) => op_searcher(inner),
         Op::StartIter { src, .. } => src_searcher(src),
         Op::ResumeIter { .. } => 0,
     }
